@@ -798,3 +798,55 @@ Print Assumptions sec_consume_split.
 Print Assumptions read_declared_spec.
 Print Assumptions sectionfile_spec.
 Print Assumptions sectionfile_handoff.
+
+(* ===================================================================== *)
+(* the extent of a raw block / an until-section, line by line             *)
+(* ===================================================================== *)
+(* the lines up to and including the first one on which [e] holds (all of them if there is none), and the others *)
+Fixpoint take_until (e : str -> bool) (ls : list str) : list str :=
+  match ls with [] => [] | l :: r => if e l then [l] else l :: take_until e r end.
+Fixpoint drop_until (e : str -> bool) (ls : list str) : list str :=
+  match ls with [] => [] | l :: r => if e l then r else drop_until e r end.
+
+Lemma raw_block_fuel_spec : forall fuel e s, length s < fuel ->
+  raw_block_fuel fuel e s = (concat (take_until e (split_lines s)), concat (drop_until e (split_lines s))).
+Proof.
+  induction fuel as [|f IH]; intros e s Hlen; [lia|]. cbn [raw_block_fuel].
+  destruct s as [|a s'].
+  - reflexivity.
+  - assert (Hne : a :: s' <> []) by discriminate.
+    rewrite (split_lines_readline (a :: s') Hne).
+    destruct (readline (a :: s')) as [l r] eqn:Er. cbn [fst snd take_until drop_until].
+    pose proof (readline_split _ _ _ Er) as Hs.
+    pose proof (readline_progress (a :: s') Hne) as Hp. rewrite Er in Hp. cbn [fst] in Hp.
+    destruct (e l).
+    + cbn [concat]. rewrite app_nil_r. rewrite split_lines_concat. reflexivity.
+    + assert (Hr : length r < f).
+      { assert (length (a :: s') = length l + length r) by (rewrite Hs at 1; apply app_length).
+        destruct l; [congruence|]. cbn [length] in *. lia. }
+      rewrite (IH e r Hr). cbn [concat]. reflexivity.
+Qed.
+
+Theorem raw_block_spec : forall e s,
+  raw_block e s = (concat (take_until e (split_lines s)), concat (drop_until e (split_lines s))).
+Proof. intros e s. unfold raw_block. apply raw_block_fuel_spec. lia. Qed.
+
+Lemma take_drop_until : forall e ls, take_until e ls ++ drop_until e ls = ls.
+Proof.
+  intros e ls. induction ls as [|l r IH]; [reflexivity|]. cbn [take_until drop_until].
+  destruct (e l); [reflexivity|]. cbn [app]. rewrite IH. reflexivity.
+Qed.
+
+(* the block ends on the first line where [e] holds: no earlier line of it satisfies [e] *)
+Lemma take_until_shape : forall e ls,
+  (exists pre l, take_until e ls = pre ++ [l] /\ e l = true /\ Forall (fun x => e x = false) pre) \/
+  (take_until e ls = ls /\ Forall (fun x => e x = false) ls).
+Proof.
+  intros e ls. induction ls as [|l r IH].
+  - right. split; [reflexivity|constructor].
+  - cbn [take_until]. destruct (e l) eqn:El.
+    + left. exists [], l. split; [reflexivity|]. split; [exact El|constructor].
+    + destruct IH as [[pre [x [Ht [Hx Hpre]]]]|[Ht Hall]].
+      * left. exists (l :: pre), x. split; [rewrite Ht; reflexivity|]. split; [exact Hx|]. constructor; assumption.
+      * right. split; [rewrite Ht; reflexivity|]. constructor; assumption.
+Qed.
